@@ -367,6 +367,7 @@ type Oblig struct {
 func (o *Oblig) Name() string { return o.Func + ":" + o.Clause }
 
 type Run struct {
+	labels      map[string]bool // at-labels reached on some path
 	v           *Verifier
 	fn          *ssa.Function
 	fname       string
@@ -395,6 +396,13 @@ func (r *Run) unsup(format string, args ...any) {
 }
 
 func (r *Run) note(a string) { r.assumptions[a] = true }
+
+func (r *Run) labelReached(l string) {
+	if r.labels == nil {
+		r.labels = map[string]bool{}
+	}
+	r.labels[l] = true
+}
 
 func (r *Run) oblige(st *State, clause string, props []string, sub string, goal *Term) {
 	if r.caseTag != "" {
@@ -1880,6 +1888,7 @@ func (r *Run) execInstr(st *State, fr *Frame, in ssa.Instruction, b *ssa.BasicBl
 						fr.callCount[key]++
 						if k == 0 || fr.callCount[key] == k {
 							fr.snaps[f[0]] = st.clone() // without #k: the last such call wins
+							r.labelReached(f[0])
 						}
 					}
 				}
